@@ -42,7 +42,13 @@ func (b *builder) enum(d *gj5s.Decl, name string) *gpb.Enum {
 		prefix = gj5s.Screaming(name) + "_"
 	}
 	e := &gpb.Enum{Name: name, Prefix: prefix, Values: []gpb.EnumVal{{Short: "UNSPECIFIED", Num: 0}}}
-	for i, o := range d.Options {
+	opts := d.Options
+	if len(opts) > 0 && strings.HasSuffix(opts[0].Name, "UNSPECIFIED") && !d.ExplicitUnspecified {
+		// a first option ending in UNSPECIFIED is the zero option, spelled by the author
+		e.Values[0].Short = strings.TrimPrefix(opts[0].Name, prefix)
+		opts = opts[1:]
+	}
+	for i, o := range opts {
 		e.Values = append(e.Values, gpb.EnumVal{Short: o.Name, Num: int32(i + 1)})
 	}
 	b.enums[d] = e
